@@ -417,20 +417,27 @@ abbrev RCell := Nat × Val
 /-- one `table:table-row`: `number-rows-repeated` and its cells -/
 abbrev RRow := Nat × List RCell
 
-/-- inner loop of `_extract_sheet`: `(row_values, pending_empty_cells)` -/
-def rowValues : List RCell → List Val → Nat → List Val
-  | [], acc, _ => acc
-  | (rep, v) :: r, acc, pending =>
-    if v == Val.none then rowValues r acc (pending + rep)
-    else rowValues r (acc ++ List.replicate pending Val.none ++ List.replicate rep v) 0
+/-- the two literals `cell_repeat > 100` / `row_repeat > 100` of `_extract_sheet` (generated from the source) -/
+structure Caps where
+  cell : Nat
+  row : Nat
+
+/-- what one `table:table-cell` adds to `row_values`: an empty cell repeated more than `cap` times is
+    collapsed to a single empty cell -/
+def cellPiece (C : Caps) (c : RCell) : List Val :=
+  if c.2 == Val.none && c.1 > C.cell then [Val.none] else List.replicate c.1 c.2
+
+/-- inner loop of `_extract_sheet`: `row_values` -/
+def rowValues (C : Caps) (cells : List RCell) : List Val := cells.flatMap (cellPiece C)
+
+/-- what one `table:table-row` adds to `raw_rows`: a row without data repeated more than `cap` times is
+    added once -/
+def rowPiece (C : Caps) (r : RRow) : List (List Val) :=
+  let rv := rowValues C r.2
+  if r.1 > C.row && rv.all (· == Val.none) then [rv] else List.replicate r.1 rv
 
 /-- outer loop: `raw_rows` -/
-def rawRows : List RRow → List (List Val) → Nat → List (List Val)
-  | [], acc, _ => acc
-  | (rep, cells) :: r, acc, pending =>
-    let rv := rowValues cells [] 0
-    if rv.isEmpty then rawRows r acc (pending + rep)
-    else rawRows r (acc ++ List.replicate pending [] ++ List.replicate rep rv) 0
+def rawRows (C : Caps) (rows : List RRow) : List (List Val) := rows.flatMap (rowPiece C)
 
 /-- `while raw_rows and all(v[0] is None for v in raw_rows[-1]): raw_rows.pop()` -/
 def trimRows (rows : List (List Val)) : List (List Val) :=
@@ -445,8 +452,8 @@ def padRow (w : Nat) (row : List Val) : List Val :=
   (List.range w).map (fun i => match row[i]? with | some v => v | none => Val.none)
 
 /-- `OdsSheet.data` of `_extract_sheet` -/
-def sheetData (rows : List RRow) : VGrid :=
-  let raw := trimRows (rawRows rows [] 0)
+def sheetData (C : Caps) (rows : List RRow) : VGrid :=
+  let raw := trimRows (rawRows C rows)
   let w := lastDataCol raw
   raw.map (padRow w)
 
